@@ -77,15 +77,26 @@ class MainSpec(corevc.Spec):
                     raise Raised(e, node)
                 r = SV('bool', fresh('successful', z3.BoolSort()))
                 it.ghost['successful'] = r
+                it.ghost['solve_completed'] = True
                 return r
             if attr == 'solution':
                 self.log(it, 'solution')
+                if not it.ghost.get('solve_completed'):
+                    e = AssertionError('solution() before solve() completed')
+                    it.ghost['raised'] = e
+                    raise Raised(e, node)
                 if it.run.branch(fresh('solution_raises', z3.BoolSort()), where='solution-raises'):
                     e = AssertionError('solution() failed')
                     it.ghost['raised'] = e
                     raise Raised(e, node)
                 return Opaque(fresh('config', OBJ), 'config')
             if attr in ('unimplemented_fields', 'unmet_input_dependencies', 'unmet_field_dependencies'):
+                # precondition of the real getters (solver.py: `assert self._done_solving`): only after solve() returned
+                if not it.ghost.get('solve_completed'):
+                    self.log(it, 'getter-before-solve-completed', attr)
+                    e = AssertionError(f'{attr}() before solve() completed')
+                    it.ghost['raised'] = e
+                    raise Raised(e, node)
                 n = fresh('n_' + attr, z3.IntSort())
                 it.run.fact(n >= 0)
                 it.ghost.setdefault('diag', {})[attr] = n
